@@ -35,11 +35,16 @@ class Spec:
         return []
 
 
+_CAPTURE = None  # puzzles.large: list that receives the answer variables in flat order
+
+
 def flat_sol(*arrays):
     out = []
     for a in arrays:
         for v in a:
             out.append(v.sol)
+            if _CAPTURE is not None:
+                _CAPTURE.append(v)
     return tuple(out)
 
 
